@@ -122,10 +122,15 @@ def gen_program(r, max_funcs=4, size=6):
     return funcs, main
 
 
+GIVEUPS = []      # give-up events of the last split_events call (a wait loop that ended with its target unfinished)
+
+
 def split_events(model_out):
     """model output -> (trace events, stdout lines, ended)"""
     evs, st = model_out.rsplit("|", 1)
     trace, out = [], []
+    giveups = GIVEUPS
+    del giveups[:]
     for e in evs.split(";"):
         if not e:
             continue
@@ -133,6 +138,8 @@ def split_events(model_out):
             out.append(e.split()[2])
         elif e.startswith("got "):
             out.append("got " + e.split()[2])
+        elif e.startswith("giveup "):
+            giveups.append(e)
         else:
             trace.append(e)
     return trace, out, st == "end"
